@@ -184,35 +184,42 @@ def _bias_value(prog, fn, ret, logic=None):
 
 
 def _scale_init(prog, fn, stmts):
+  """the value returned along the executed statements, by kind (the locals it
+  passes through do not matter)"""
   ret = stmts[-1] if stmts and isinstance(stmts[-1], ast.Return) else None
   if ret is None:
     return 'none'
-  v = ret.value
-  if isinstance(v, ast.Call) and prog.ext_name(fn.module, v.func) == 'np.ones':
-    return '+ones'
-  if (isinstance(v, ast.UnaryOp) and isinstance(v.op, ast.USub) and isinstance(
-      v.operand, ast.Call) and prog.ext_name(
-          fn.module, v.operand.func) == 'np.ones'):
-    return '-ones'
-  if dotted(v) == 'scale':
-    scaled = False
-    tiled = False
-    stmts = [expand_aug(s) for s in stmts]
-    for st in stmts:
-      if isinstance(st, ast.Assign) and dotted(st.targets[0]) == 'scale':
-        if isinstance(st.value, ast.Call) and prog.ext_name(
-            fn.module, st.value.func) == 'np.tile' and dotted(
-                st.value.args[0]) == 'signs':
-          tiled = True
-        elif isinstance(st.value, ast.BinOp) and isinstance(
-            st.value.op, ast.Mult) and dotted(st.value.left) == 'scale':
-          from_ = st.value.right
-          scaled = guards is not None and _halfrange_expr(from_)
-          if not scaled:
-            return 'alternating*?'
-    if tiled:
-      return 'alternating*half' if scaled else 'alternating'
-  return 'other'
+  val = {}
+
+  def kind(v):
+    if isinstance(v, ast.Name):
+      return val.get(v.id, 'other')
+    if isinstance(v, ast.Call):
+      ext = prog.ext_name(fn.module, v.func)
+      if ext == 'np.ones':
+        return '+ones'
+      if ext == 'np.tile' and v.args and dotted(v.args[0]) == 'signs':
+        return 'alternating'
+      return 'other'
+    if isinstance(v, ast.UnaryOp) and isinstance(v.op, ast.USub):
+      return {'+ones': '-ones', '-ones': '+ones'}.get(kind(v.operand),
+                                                      'other')
+    if isinstance(v, ast.BinOp) and isinstance(v.op, ast.Mult):
+      for x, y in ((v.left, v.right), (v.right, v.left)):
+        if kind(x) == 'alternating':
+          return 'alternating*half' if _halfrange_expr(y) or (
+              isinstance(y, ast.Name) and val.get(y.id) == 'half') else \
+              'alternating*?'
+      return 'other'
+    if _halfrange_expr(v):
+      return 'half'
+    return 'other'
+  for st in stmts[:-1]:
+    st = expand_aug(st)
+    if isinstance(st, ast.Assign) and len(st.targets) == 1 and isinstance(
+        st.targets[0], ast.Name):
+      val[st.targets[0].id] = kind(st.value)
+  return kind(ret.value)
 
 
 def _halfrange_expr(e):
